@@ -41,6 +41,15 @@ func main() {
 		fmt.Fprintln(os.Stderr, "usage: govc check <PROP> [--thorough] | govc fn <name> [pkgs...]")
 		os.Exit(2)
 	}
+	// the repository needs go >= 1.25.5; the default `go` on PATH is older. Use the cached toolchain, offline.
+	const tc = "/root/go/pkg/mod/golang.org/toolchain@v0.0.1-go1.25.5.linux-amd64/bin"
+	if _, err := os.Stat(tc); err == nil {
+		os.Setenv("PATH", tc+":"+os.Getenv("PATH"))
+	}
+	os.Setenv("GOTOOLCHAIN", "local")
+	os.Setenv("GOFLAGS", "-mod=mod")
+	os.Setenv("GOPROXY", "off")
+	os.Setenv("GOSUMDB", "off")
 	switch os.Args[1] {
 	case "check":
 		os.Exit(cmdCheck(os.Args[2:]))
@@ -93,6 +102,7 @@ func cmdFn(args []string) int {
 	timeout := fs.Int("t", 10, "solver timeout seconds")
 	dump := fs.Bool("dump", false, "dump SSA")
 	keep := fs.String("work", "", "work dir")
+	doReplay := fs.Bool("replay", false, "replay models of failed obligations on the real code")
 	fs.Parse(args)
 	rest := fs.Args()
 	if len(rest) < 1 {
@@ -147,7 +157,11 @@ func cmdFn(args []string) int {
 				if len(o.Instances) > 0 {
 					fmt.Printf("     note: %s\n", o.Instances[0].Note)
 				}
-				fmt.Printf("     %s\n", firstLines(o.Model, 40))
+				fmt.Printf("     %s\n", firstLines(o.Model, 12))
+				if *doReplay && o.Status == "failed" && o.ModelVals != nil {
+					ro := BuildReplay("_fn", r, o)
+					fmt.Printf("     replay: ran=%v confirmed=%v file=%s\n", ro.Ran, ro.Confirmed, ro.Path)
+				}
 			}
 		}
 	}
@@ -228,9 +242,9 @@ func cmdCheck(args []string) int {
 		<-done
 	}
 	genTime := time.Since(t0).Seconds()
-	timeout := 10 * time.Second
+	timeout := 20 * time.Second
 	if tier == "thorough" {
-		timeout = 60 * time.Second
+		timeout = 90 * time.Second
 	}
 	work := filepath.Join(verifDir(), "work", prop)
 	os.RemoveAll(work)
@@ -251,6 +265,9 @@ func cmdCheck(args []string) int {
 	var fnNames []string
 	var samples []interface{}
 	var knownHit []string
+	replayed, confirmed := 0, 0
+	var curFn *FnResult
+	var curObl *Obligation
 	report := func(oblName, status, detail, model string) {
 		if k, ok := knownByObl[oblName]; ok {
 			lines = append(lines, fmt.Sprintf("KNOWN-FINDING: property=%s %s [%s]", prop, k.What, oblName))
@@ -258,9 +275,21 @@ func cmdCheck(args []string) int {
 			return
 		}
 		violations++
+		if curObl != nil && curFn != nil && curObl.Status == "failed" && curObl.ModelVals != nil {
+			ro := BuildReplay(prop, curFn, curObl)
+			if ro.Ran {
+				replayed++
+			}
+			suffix := " no-failing-input-found"
+			if ro.Confirmed {
+				confirmed++
+				suffix = " replayed-on-real-code"
+			}
+			lines = append(lines, fmt.Sprintf("VIOLATION property=%s replay=%s obligation=%q status=%s%s", prop, ro.Path, oblName, status, suffix))
+			return
+		}
 		rp := writeReplayText(prop, oblName, fmt.Sprintf("obligation: %s\nstatus: %s\n%s\n\nsolver output:\n%s\n", oblName, status, detail, model))
-		suffix := " no-failing-input-found"
-		lines = append(lines, fmt.Sprintf("VIOLATION property=%s replay=%s obligation=%q status=%s%s", prop, rp, oblName, status, suffix))
+		lines = append(lines, fmt.Sprintf("VIOLATION property=%s replay=%s obligation=%q status=%s no-failing-input-found", prop, rp, oblName, status))
 	}
 	for _, e := range db.Errors {
 		// contract file problems are failures of the check for every property
@@ -293,7 +322,9 @@ func cmdCheck(args []string) int {
 			if len(o.Instances) > 0 {
 				note = o.Instances[0].Note
 			}
+			curFn, curObl = r, o
 			report(o.Name, o.Status, o.Detail+" "+note, o.Model)
+			curFn, curObl = nil, nil
 		}
 	}
 	for _, lr := range lemmaRes {
@@ -316,7 +347,7 @@ func cmdCheck(args []string) int {
 	}
 	wall := time.Since(t0).Seconds()
 	writeEvidence(prop, tier, seed, cfg, results, fnNames, nObl, map[string]interface{}{
-		"discharged": nDis, "stats": stats, "by_backend": byBackend, "solver_s": round3(solverTime), "gen_s": round3(genTime), "samples": samples, "known_hit": knownHit,
+		"discharged": nDis, "stats": stats, "by_backend": byBackend, "models_replayed": replayed, "models_confirmed_on_real_code": confirmed, "solver_s": round3(solverTime), "gen_s": round3(genTime), "samples": samples, "known_hit": knownHit,
 	}, wall, violations, lemmaRes, lines)
 	fmt.Printf("govc: property %s tier %s: %d functions under contract, %d obligations, %d discharged, %d violations, %d known findings, %.1fs\n",
 		prop, tier, len(names), nObl, nDis, violations, len(knownHit), wall)
